@@ -33,7 +33,7 @@ BOUNDS = {"quick": "ranks: every double alpha in (0,1) x B in 2..12, 16, 20, 32,
                    "units with symbolic expected vote / partial margin / turnout factor; intervals: 10 reporting, 3 nonreporting, 1 unexpected "
                    "unit, B=2 with level pairs {0.5,0.9} {0.7,0.99} and B=3 with {0.7,0.99}, state + county / classification aggregates, margin draws symbolic, "
                    "turnout draws concrete",
-          "thorough": "ranks: B in 2..64 and a ladder to 2000; I_boot: up to (4,2); intervals: B up to 5, all level pairs"}
+          "thorough": "ranks: B in 2..64 and a ladder to 2000; I_boot: up to (3,2); intervals: B up to 5, all level pairs"}
 OPTS = {"quick": dict(case_timeout_s=900, solver_timeout_ms=120000), "thorough": dict(case_timeout_s=3300, solver_timeout_ms=600000)}
 
 
@@ -46,7 +46,7 @@ def cases(tier):
         # the level range is split at 2^-52: below it (1 - alpha) / 2 rounds to exactly 0.5 (see known_findings.json)
         out.append(dict(name="ranks_B%d" % B, kind="ranks", backend="cvc5", B=B, region="alpha>=2^-52", weight=50))
         out.append(dict(name="ranks_tiny_alpha_B%d" % B, kind="ranks", backend="cvc5", B=B, region="alpha<2^-52", weight=40))
-    for B, nt in ((2, 1), (2, 2), (3, 1)) if tier == "quick" else ((2, 1), (2, 2), (3, 1), (3, 2), (4, 2)):
+    for B, nt in ((2, 1), (2, 2), (3, 1)) if tier == "quick" else ((2, 1), (2, 2), (3, 1), (3, 2)):
         out.append(dict(name="iboot_B%d_n%d" % (B, nt), kind="iboot", B=B, n_test=nt, weight=40 * nt))
     for B in (2, 3) if tier == "quick" else (2, 3, 4, 5):
         for aggs in (["postal_code", "county_fips", "unit"], ["postal_code", "county_classification", "unit"]):
